@@ -75,6 +75,13 @@ def correspondence(ctx):
         cases.append(f'prof|{prof}|enforce|f|b|{h}|')
     for s_ in long_strings(ctx, alpha + CASED + WIDE + COMPAT + DECOMP + CTX, (60 if ctx.tier == 'quick' else 3000), 40, 600):
         cases.append(f'prof|{ctx.rng.choice(["um", "up", "op", "nick"])}|enforce|f|b|{hexs(s_)}|')
+    for s_ in structured_strings(ctx, 300 if ctx.tier == 'quick' else 4000):
+        h = hexs(s_)
+        for prof in ('um', 'up', 'op', 'nick'):
+            cases.append(f'prof|{prof}|enforce|f|b|{h}|')
+        for prof, rule in (('um', 'width'), ('um', 'case'), ('um', 'dir'), ('op', 'addmap'), ('nick', 'addmap')):
+            cases.append(f'rules|{prof}|{rule}|{h}')
+        cases.append(f'allows.ff|{h}')
     cases += fuzz_cases(ctx, set(range(12)))      # coverage-guided search of the tree under check (only when the source changed / thorough)
     res = run_cases(cases, ctx.work)
 
